@@ -607,6 +607,11 @@ class SpecEnv(object):
         P["py_id"] = lambda ctx, v: SInt(py_id(to_val(v)))
         P["is_module"] = lambda ctx, v: b2v(is_module(to_val(v)))
         P["is_class"] = lambda ctx, v: b2v(is_class(to_val(v)))
+        # isinstance(v, type) as the code's own test decides it: v is a heap object whose class derives from `type`
+        def p_is_type_object(ctx, v):
+            from .sorts import type_id
+            return b2v(z3.And(Val.is_VRef(to_val(v)), subclass_inst(Val.oid(to_val(v)), type_id(type))))
+        P["is_type_object"] = p_is_type_object
         P["netref_conn"] = lambda ctx, v: SVal(netref_conn(to_val(v)))
         def p_netref_idpack(ctx, v):
             r = SVal(netref_idpack(to_val(v)))
